@@ -386,3 +386,36 @@ return chunks
 
 
 UNITS += [chunk_list_unit(4), chunk_list_unit(8), chunk_list_unit(100)]
+
+
+# ------------------------------------------------------------------------------ what the region tiling is asked for
+# "fetch margins at least one fragment length": the tiler's contract (C17) guarantees windows extended by the fragment size it is
+# GIVEN; tag_multiome_multi_processing has to give it the fragment size of the method, whatever the segment size is
+def _tiling_call(f):
+    import ast
+    return blocks.find_nodes(f, lambda n: isinstance(n, ast.Assign) and isinstance(n.value, ast.Call)
+                             and ast.unparse(n.value.func).endswith('blacklisted_binning_contigs'))[:1]
+
+
+def tiling_setup(eng):
+    eng.ghost.clear()
+    eng.ghost['asked'] = None
+    eng.spec_env['GHOST'] = eng.ghost
+    eng.loader.call_hooks['singlecellmultiomics.bamProcessing.bamBinCounts.blacklisted_binning_contigs'] = \
+        lambda e, f, a, k, n: (e.ghost.__setitem__('asked', dict(k)), [])[1]
+
+
+tiling_call = Contract(
+    PROP, FT + '::tag_multiome_multi_processing', name='tag_multiome_multi_processing[what the region tiling is asked for]',
+    block=_tiling_call,
+    params={'input_bam_path': ('const', 'in.bam'), 'bp_per_segment': 'int', 'fragment_size': 'int', 'blacklist_path': 'none',
+            'contig_whitelist': ('const', ['chr1'])},
+    requires=['bp_per_segment >= 1', 'fragment_size >= 0'],
+    setup=tiling_setup,
+    ensures={'the_fetch_margin_is_the_fragment_size_of_the_method_whatever_the_segment_size':
+             'GHOST["asked"]["fragment_size"] == fragment_size and GHOST["asked"]["bin_size"] == bp_per_segment and '
+             'GHOST["asked"]["contig_whitelist"] == ["chr1"] and GHOST["asked"]["contig_length_resource"] == "in.bam"'},
+    raises={},
+    assumptions=['blacklisted_binning_contigs through its own contract (C17): recorded with its arguments'],
+)
+UNITS.append(tiling_call)
